@@ -1,5 +1,6 @@
 import PyGam.Model.Terms
 import PyGam.Proofs.BSplineRows
+import PyGam.Gen.Decisions
 /-!
 # C16 — each term contributes exactly its documented model-matrix columns
 
@@ -190,5 +191,32 @@ end factor
 
 /-! ### non-vacuity -/
 example : coefStart ([Term.intercept, Term.intercept, Term.intercept] : List (Term ℚ)) 2 = 2 := by decide
+
+/-! ### tie to the source by translation of the decision logic (`gen_decision_*`)
+
+`Gen/Decisions.lean` is regenerated on every run from the abstract syntax tree of `pygam/terms.py`: the `n_coefs`
+properties of `Intercept`, `LinearTerm`, `SplineTerm`, `FactorTerm` (`n_splines - 1 * (coding in ['dummy'])`) and
+`TensorTerm` (`np.prod` of the marginals'), over `Nat`. -/
+section gen_decisions
+
+/-- `n_coefs` of the three non-tensor term classes is `Marg.nCoefs`: linear `1`, spline `n_splines`, factor
+`n_splines` minus one under dummy coding -/
+theorem gen_decision_n_coefs_marg (m : Marg α) :
+    m.nCoefs = match m.kind with
+      | .linear => Gen.n_coefs_linear
+      | .spline => Gen.n_coefs_spline m.nSplines
+      | .factor => Gen.n_coefs_factor m.nSplines (if m.dummy then "dummy" else "one-hot") := by
+  rcases m with ⟨kind, _, _, _, _, _, dummy, _, _, _, _, _⟩
+  cases kind <;> cases dummy <;> simp [Marg.nCoefs, Gen.n_coefs_linear, Gen.n_coefs_spline, Gen.n_coefs_factor]
+
+/-- `n_coefs` of a term is `Term.nCoefs`: intercept `1`, tensor term the product of its marginals' -/
+theorem gen_decision_n_coefs_term (t : Term α) :
+    t.nCoefs = match t with
+      | .intercept => Gen.n_coefs_intercept
+      | .single m => m.nCoefs
+      | .tensor ms _ => Gen.n_coefs_tensor (ms.map Marg.nCoefs) := by
+  cases t <;> rfl
+
+end gen_decisions
 
 end PyGam.C16
